@@ -243,18 +243,33 @@ class Host:
         # the host's own callback object for options it sets in its GLOBAL config (a JSON world writes
         # them as the marker strings '@@gpeer.field' / '@@gpeer.text')
         self.gpeer = Peer({'seed': 77, 'style': 'upper'})
+        # a host that keeps its settings read-only: the options / snippets / variables sections of every layer it
+        # hands to the library are types.MappingProxyType views (any Mapping is a legal section; seeded change
+        # Z06-m3 merged only sections that pass isinstance(x, dict))
+        self.frozen = bool(world.get('frozen'))
         self.globals = {gid: self.live_layer(jcopy(layer)) for gid, layer in (world.get('globals') or {}).items()}
         self.cfgs = {}
         for cid, spec in (world.get('configs') or {}).items():
             self.add_config(cid, jcopy(spec))
 
     # -- construction ---------------------------------------------------------
+    def freeze_sections(self, d):
+        import types
+        if self.frozen and isinstance(d, dict):
+            for k in SECTIONS:
+                if isinstance(d.get(k), dict):
+                    d[k] = types.MappingProxyType(d[k])
+        return d
+
     def live_layer(self, layer):
         "Replaces the callback markers of a global config by the bound methods of the host's callback object"
         if isinstance(layer, dict):
             for sec in layer.values():
+                self.freeze_sections(sec)
+        if isinstance(layer, dict):
+            for sec in layer.values():
                 opts = sec.get('options') if isinstance(sec, dict) else None
-                if isinstance(opts, dict):
+                if isinstance(opts, dict) and not self.frozen:
                     for k, v in list(opts.items()):
                         if v == '@@gpeer.field':
                             opts[k] = self.gpeer.field
@@ -288,6 +303,7 @@ class Host:
                     opts = h.user['options'] = {}
                 opts['output.field'] = h.peer.field
                 opts['output.text'] = h.peer.text
+            self.freeze_sections(h.user)
             if spec.get('holder') == 'Config':
                 h.instance = self.make_config(h.user, self.global_of(spec))
         self.cfgs[cid] = h
@@ -322,7 +338,7 @@ class Host:
             else:
                 sec_name, key = path
                 sec = h.user.get(sec_name)
-                inplace = bool(op.get('inplace')) and not h.spec.get('shared') and sec is not None
+                inplace = bool(op.get('inplace')) and not h.spec.get('shared') and sec is not None and not self.frozen
                 if not inplace:
                     sec = dict(sec) if sec is not None else {}
                     h.user[sec_name] = sec
@@ -333,8 +349,20 @@ class Host:
                     sec.pop(key, None)
                     spec_sec.pop(key, None)
                 else:
-                    sec[key] = jcopy(op['value'])
+                    old = sec.get(key)
+                    new = jcopy(op['value'])
+                    if op.get('deep') and inplace and isinstance(old, list) and isinstance(new, list):
+                        # the host changes the CONTENTS of the list it keeps in its settings (append / remove):
+                        # the same list object, seen again by the next call (seeded change Z06-m1 memoised
+                        # membership tests by id(list))
+                        old[:] = new
+                    elif op.get('deep') and inplace and isinstance(old, dict) and isinstance(new, dict):
+                        old.clear()
+                        old.update(new)
+                    else:
+                        sec[key] = new
                     spec_sec[key] = jcopy(op['value'])
+                self.freeze_sections(h.user)
             if h.spec.get('holder') == 'Config':
                 # host discipline: rebuild a held Config whenever its dict is edited
                 h.instance = self.make_config(h.user, self.global_of(h.spec))
